@@ -367,7 +367,9 @@ func (a *Analysis) step(st *State, fr *frame, in ssa.Instruction) {
 			a.bind(st, fr, x, mk("asserted", x.Type(), tk, 0, xe))
 		}
 	case *ssa.SliceToArrayPointer:
-		a.bind(st, fr, x, a.freshLeaf(st, fr, "val", x))
+		// a pointer to the first N octets of the slice: loads of it denote
+		// "the array made of x[0:N]"
+		a.bind(st, fr, x, mk("s2a", x.Type(), "", 0, a.exprOf(st, fr, x.X)))
 	case *ssa.Phi:
 		// bound on edges
 	case *ssa.Store:
@@ -555,6 +557,20 @@ func (a *Analysis) call(st *State, fr *frame, c *ssa.Call) {
 	cc := c.Common()
 	desc := a.P.calleeDesc(c)
 	args := a.argExprs(st, fr, cc)
+	devirt := false
+	// an interface method call whose receiver is known, in this state, to hold
+	// one concrete local type is a call of that type's method
+	if cc.IsInvoke() && len(args) > 0 && args[0] != nil && args[0].Op == "makeiface" {
+		tn := strings.TrimPrefix(args[0].S, "*")
+		if m := a.P.Funcs[tn+"."+cc.Method.Name()]; m != nil && strings.HasPrefix(desc, "invoke:") {
+			if !strings.HasPrefix(desc, "invoke:Plugin.") {
+				desc = tn + "." + cc.Method.Name()
+				// the receiver is the concrete value
+				args = append([]*Expr{args[0].Args[0]}, args[1:]...)
+				devirt = true
+			}
+		}
+	}
 	// a call through a func value that is known, in this state, to be one
 	// named local function is a call of that function
 	if !cc.IsInvoke() && strings.HasPrefix(desc, "dyn:") {
@@ -661,7 +677,8 @@ func (a *Analysis) call(st *State, fr *frame, c *ssa.Call) {
 				st.memE[addr.Key] = addr
 			}
 		}
-		a.bind(st, fr, c, a.freshLeaf(st, fr, "val", c))
+		// copy returns min(len(dst), len(src))
+		a.bind(st, fr, c, mkCall("min", c.Type(), mkLen(args[0]), mkLen(args[1])))
 		return
 	case "builtin:min", "builtin:max":
 		if len(args) == 2 {
@@ -766,6 +783,7 @@ func (a *Analysis) call(st *State, fr *frame, c *ssa.Call) {
 	} else {
 		a.bind(st, fr, c, mk("rcall", c.Type(), desc, 0, append([]*Expr{l}, args...)...))
 	}
+	_ = devirt
 }
 
 // chanName names a channel term by the field or local it was loaded from.
